@@ -2199,7 +2199,7 @@ fn utf8_member(rng: &mut Rng) -> Vec<u8> {
     }
 }
 
-/// any bytes (sets are binary safe since the fix 'set members are binary safe')
+/// any bytes (sets and hash fields are binary safe since the fixes c9e4f2c / 8832ec4)
 fn any_member(rng: &mut Rng) -> Vec<u8> {
     match rng.below(8) {
         0 => vec![0xff],
@@ -2288,7 +2288,7 @@ fn hash_sequence(d: &mut Dx, rng: &mut Rng) {
     let mut r: BTreeMap<Vec<u8>, Vec<u8>> = BTreeMap::new();
     let r0 = guard(|| {
         for _ in 0..rng.range(3, 40) {
-            let f = utf8_member(rng);
+            let f = any_member(rng);
             let key = SDS::new(f.clone());
             match rng.below(10) {
                 0..=4 => {
